@@ -288,6 +288,9 @@ func (c *Ctx) minimizeCrash(fc *faultCase, class, where, detail string) *Finding
 		cl, wh, _ := crashOf(r)
 		return cl == class && wh == where
 	}
+	if !c.mayMinimize() {
+		return &Finding{Class: class, Scenario: fc.sc.Name, Where: where, Detail: "(not minimised) " + detail, Spec: fc.spec, Oracle: "returns to the caller", Expect: class + "@" + where}
+	}
 	cur := cloneSpec(fc.spec)
 	cur.ID += "/min"
 	if !same(cur) {
